@@ -13,7 +13,7 @@ warnings.filterwarnings("ignore")
 
 THEOREMS = ["Yaw.C16.random_sizes", "Yaw.C16.random_full_chunks", "Yaw.C16.reseed_history_free",
             "Yaw.C16.window_of_monotone", "Yaw.C16.joint_attributes", "Yaw.C16.glue_pinned", "Yaw.C16.seed_invariant",
-            "Yaw.C16.reproducible_after_any_use", "Yaw.C16.flags",
+            "Yaw.C16.reproducible_after_any_use", "Yaw.C16.flags", "Yaw.C16.reseedTo_fresh",
             "Yaw.C16Box.cyl_roundtrip", "Yaw.C16Box.affine_mem", "Yaw.C16Box.box_window", "Yaw.C16Box.preimage_box",
             "Yaw.C16Box.equal_area"]
 RULE = ("BoxRandoms over windows incl. both poles, the full sphere and thin strips x requested sizes around multiples "
@@ -181,6 +181,20 @@ def run(prop, tier, seed, replay):
             ck.extra["uniformity_chi2_79dof"] = chi2
             if chi2 > 160:          # p < 1e-7 for 79 dof
                 ck.add_violation(f"random points are not uniform in area (chi2={chi2:.1f} for 79 dof, fixed seed)", {"seed": 424242})
+            # ---- explicit re-seeding: ONE generator object run through several seeds (0 included) gives, for each seed, the
+            #      points of a fresh generator with that seed
+            for win in windows[:3]:
+                g = BoxRandoms(*win, seed=4242)
+                g(5)
+                for sd in (3, 0, 17, 0, 2 ** 31 - 1):
+                    g.reseed(sd)
+                    got = g(33)
+                    want = BoxRandoms(*win, seed=sd)(33)
+                    ck.case(None, ("reseed", win, sd))
+                    if not (np.array_equal(got["ra"], want["ra"]) and np.array_equal(got["dec"], want["dec"])):
+                        ck.add_violation(f"reseed({sd}) on a generator used with another seed before does not give the points of a "
+                                         f"fresh generator with seed {sd}", {"window": win, "seed": sd, "earlier_seed": 4242})
+                        break
             # ---- tie of the generated footprint formulas (Generated/RandomsReal.lean): the limits the constructor stores
             #      and what `_draw_coords` does with the two uniform variates, observed through a recording generator
             for win in windows:
